@@ -22,6 +22,7 @@ import Ogen.JsonCodecDriver
 import Ogen.GenOrderDriver
 import Ogen.AuthHeaderDriver
 import Ogen.UuidText_proof
+import Ogen.DocLines_proof
 
 /-! Line-protocol driver over all executable models: `<model> <payload>` per line, one
     canonical output line per input line. Core-only (no Mathlib) so it links natively. -/
@@ -71,6 +72,7 @@ def dispatch (line : String) : String :=
     | "vfloat" => FloatV.floatLine payload
     | "jcodec" => JCodecDrv.codecLine payload
     | "jaccept" => JCodecDrv.acceptLine payload
+    | "docsplit" => DocLines.splitLineLine payload
     | "uuidfmt" => UuidT.fmtLine payload
     | "uuidparse" => UuidT.parseLine payload
     | "authz" => AuthHDrv.authzLine payload
